@@ -12,3 +12,12 @@ for _p in ["C01","C03","C04","C05","C06","C07","C08","C09","C10","C11","C14","C1
 NA["C12"] = "every clause compares floating-point query results with an all-triangles oracle or depends on rtree/embree pruning geometry; nothing in the statement is decidable from code shape (staleness of query structures is covered under C01)"
 NA["C13"] = "losslessness of run-length codecs and equality of encodings with the dense array are value-level facts over all sequences; no sound static argument in reach bounds them"
 NA["C16"] = "containment, convexity, minimality and rigidity are numerical statements about qhull / optimiser output on runtime coordinates"
+
+CHECKS["C06"] = (
+    "other",
+    "static analysis: interval abstract interpretation of the bit-packing block (per admitted column count), dtype-overflow tracking, call-graph funnel check",
+    "Decides, for every integer input admitted by the range guard read from the source and every packed column count, that hashable_rows is injective (fields disjoint, no intermediate overflow, top bit <= 63), that the fallback views exact row bytes, and that unique_rows/group_rows compare rows only through it. Value semantics of group/blocks/merge_runs/group_min/boolean_rows and float quantisation are not decided.",
+    "Trusted: transfer functions of the interval evaluator (+, -, *, <<, astype, floor/ceil), numpy 2 rule that an out-of-range python int operand raises; XOR/OR of disjoint bit fields is injective.",
+    "DESIGN.md#c06",
+)
+NA.pop("C06", None)
